@@ -1,7 +1,7 @@
 """Table of harness units: which source, how to build, how each tier runs it, which properties it serves."""
 
 LIBS_IO = "-lz -lbz2 -lexpat -llz4"
-ASAN = "-O1 -fsanitize=address -fno-omit-frame-pointer"
+ASAN = "-O1 -fsanitize=address -fno-omit-frame-pointer -DOSMIUM_WITH_LZ4"
 
 HOOK_COMMITS = []
 
@@ -9,6 +9,10 @@ HOOK_COMMITS = []
 NOT_APPLICABLE = {("C%02d" % i): "check not built yet in this round; see DESIGN.md section 6 for the plan" for i in range(1, 21)}
 
 PROPS = {
+    "C01": {"level": "exploration",
+            "level_text": "Generated object sequences and writer option vectors are written with the real Writer and read back with the real Reader; the result is compared item by item with the harness's projection of the model (what each format and option set carries). Sampling of an unbounded input space, weighted towards the format's internal boundaries.",
+            "level_note": "Trusted: the harness's projection rules (DESIGN.md C01) and its model<->buffer conversion. Preconditions kept: deleted nodes carry no location, invisible objects only with history/change output, OPL node locations valid or undefined, ids != INT64_MIN, changesets only for XML/OPL, discussions only for XML.",
+            "technique": "property-based testing: generated inputs x generated configurations, round-trip oracle against a model projection"},
     "C20": {"level": "exploration",
             "level_text": "Exhaustive over all item sequences of length <= 4 over the 13 item kinds and over all version histories of <= 4 objects with runs of 1..4, seeded longer sequences; every sequence is dispatched through nine apply()/apply_item() forms with up to six handlers and compared with an ordered call-log model.",
             "level_note": "Trusted: the harness's call-log model of the documented dispatch rules. Handler combinations are a fixed battery (C++ template instantiations), not generated. A lambda taking const memory::Item& is never invoked by the wrapper (hidden by its catch-all overload); this is recorded as an observation in DESIGN.md and not asserted.",
@@ -38,6 +42,9 @@ PROPS = {
 }
 
 UNITS = [
+    {"name": "c01_roundtrip", "props": ["C01"], "kind": "vp", "src": "harness/c01_roundtrip.cpp", "flags": ASAN, "libs": LIBS_IO,
+     "quick": {"cases": 400, "shards": 16, "case_timeout": 60, "min_evaluations": 3000},
+     "thorough": {"cases": 15000, "shards": 16, "case_timeout": 120, "min_evaluations": 100000}},
     {"name": "c20_enum", "props": ["C20"], "kind": "enum", "src": "harness/c20_enum.cpp", "flags": "-O1", "libs": LIBS_IO,
      "quick": {"min_evaluations": 40000}, "thorough": {"min_evaluations": 300000, "case_timeout": 900}},
     {"name": "c16_enum", "props": ["C16"], "kind": "enum", "src": "harness/c16_enum.cpp", "flags": "-O2",
